@@ -609,12 +609,12 @@ class Engine:
                 outcome = ("nonfinite", e)
             except Signal as e:  # pragma: no cover
                 outcome = ("unsupported", e)
+            except Exception as e:  # noqa: BLE001 - exceptions of the code under test are outcomes
+                outcome = ("exc", e)
             except BaseException as e:  # noqa: BLE001
                 if type(e).__name__ != "ShimUnsupported":
                     raise
                 outcome = ("unsupported", e)
-            except Exception as e:  # noqa: BLE001 - exceptions of the code under test are outcomes
-                outcome = ("exc", e)
             if outcome is None:
                 work.extend(self.pending)
                 continue
